@@ -106,11 +106,23 @@ class Token:
         return 'Token(%r)' % self.value
 
 
+class OnlyFloat:
+    """converts to float, has no __floor__/__ceil__/__trunc__ of its own"""
+    def __float__(self):
+        return 2.5
+
+    def __eq__(self, o):
+        return isinstance(o, OnlyFloat)
+
+    def __hash__(self):
+        return 7
+
+
 def values():
     return [('int', 7), ('int0', 0), ('negint', -3), ('float', 2.5), ('bool', True), ('str', 'ab'), ('empty_str', ''),
             ('list', [1, 2]), ('tuple', (1, 2)), ('dict', {'a': 1}), ('set', {1, 2}), ('none', None), ('complex', 1 + 2j),
             ('user', Pt(3)), ('frozenset', frozenset({1})), ('user_with_value_field', Coin(250)),
-            ('falsy_user_with_value_field', Coin(0)), ('user_reading_value_field', Token(4))]
+            ('falsy_user_with_value_field', Coin(0)), ('user_reading_value_field', Token(4)), ('user_only_float', OnlyFloat())]
 
 
 BINARY = [('+', operator.add), ('-', operator.sub), ('*', operator.mul), ('/', operator.truediv), ('//', operator.floordiv),
@@ -124,7 +136,8 @@ UNARY = [('neg', operator.neg), ('pos', operator.pos), ('abs', abs), ('invert', 
          ('trunc', math.trunc), ('floor', math.floor), ('ceil', math.ceil), ('index', operator.index),
          ('iter', lambda v: list(iter(v))), ('getitem0', lambda v: v[0]), ('getitem_a', lambda v: v['a']),
          ('isinstance', lambda v: (isinstance(v, int), isinstance(v, str), isinstance(v, list), isinstance(v, Pt))),
-         ('contains1', lambda v: 1 in v), ('contains_a', lambda v: 'a' in v)]
+         ('contains1', lambda v: 1 in v), ('contains_a', lambda v: 'a' in v),
+         ('pow_mod', lambda v: pow(v, 4, 5)), ('pow_mod_exponent', lambda v: pow(3, v, 5)), ('int_base16', lambda v: int(v, 16))]
 
 
 def outcome(fn, *args):
@@ -221,6 +234,14 @@ def bounded(arg):
         got, printed = outcome(R.len, SandboxResult(a))
         evaluations += 1
         report('unary', 'pedal.sandbox.result.len on a proxy', 'len(proxy %s)' % na, raw, got, printed)
+    # a proxied class as the second argument of isinstance / issubclass
+    for cls in (int, str, (int, str), list):
+        for obj in (5, 'a', True, [1]):
+            raw, _ = outcome(isinstance, obj, cls)
+            got, printed = outcome(isinstance, obj, SandboxResult(cls))
+            evaluations += 1
+            distinct.add(('isinstance_class', repr(cls), repr(obj)))
+            report('unary', 'isinstance with a proxied class', 'isinstance(%r, proxy(%r))' % (obj, cls), raw, got, printed)
     # results of consecutive evaluations in ONE real sandbox: each proxy stands for its own result
     from pedal.core.commands import clear_report, contextualize_report
     from pedal.sandbox.sandbox import Sandbox
